@@ -206,6 +206,8 @@ class Case:
 class Engine:
     """One correspondence engine: harness binary eng_<name> + Lean driver engine <name>."""
     name = None
+    harness = None          # harness source eng_<harness>.c (default: name)
+    model = None            # Lean driver engine (default: name)
     flavour = 'asan'
     extra_cflags = ()
     repo_deps = ()          # files under /repo that are #included by the harness TU
@@ -235,7 +237,8 @@ class Engine:
 
     # -- running ----------------------------------------------------------
     def build(self):
-        return build_engine(self.name, self.flavour, self.extra_cflags, self.repo_deps)
+        self.exe = build_engine(self.harness or self.name, self.flavour, self.extra_cflags, self.repo_deps)
+        return self.exe
 
     def run_impl(self, exe, cases):
         text = ''.join(f'#case {i}\n' + ''.join(o + '\n' for o in c.ops) for i, c in enumerate(cases))
@@ -243,6 +246,8 @@ class Engine:
         env.setdefault('ASAN_OPTIONS', 'detect_leaks=1:abort_on_error=0:exitcode=99:allocator_may_return_null=1')
         env.setdefault('UBSAN_OPTIONS', 'print_stacktrace=1:halt_on_error=1')
         env['LC_ALL'] = env['LANG'] = 'C.UTF-8'
+        env.setdefault('VERIF_SCRATCH', os.path.join(OUT, 'scratch'))
+        os.makedirs(env['VERIF_SCRATCH'], exist_ok=True)
         env.update(self.env)
         errf = os.path.join(OUT, f'{self.name}.{os.getpid()}.stderr')
         os.makedirs(OUT, exist_ok=True)
@@ -261,7 +266,7 @@ class Engine:
             for j, o in enumerate(c.ops):
                 lines.append(o + '\t' + (obs[j] if j < len(obs) else ''))
         drv = os.path.join(LEAN, '.lake', 'build', 'bin', 'driver')
-        r = subprocess.run([drv, self.name], input='\n'.join(lines) + '\n', stdout=subprocess.PIPE,
+        r = subprocess.run([drv, self.model or self.name], input='\n'.join(lines) + '\n', stdout=subprocess.PIPE,
                            stderr=subprocess.PIPE, text=True, timeout=self.timeout)
         if r.returncode != 0:
             raise BuildError('model driver failed: ' + r.stderr[-2000:])
